@@ -87,6 +87,8 @@ pub struct Generated {
     pub injected: Option<String>,
     pub packed_classes: usize,
     pub pushed_words:   usize,
+    /// The packed-views family (see `generate_views`).
+    pub views:          bool,
 }
 
 fn depth(truths: &[Truth], c: usize) -> usize {
@@ -483,6 +485,7 @@ pub fn generate(r: &mut Rng, contradictory: bool) -> Generated {
         injected,
         packed_classes,
         pushed_words,
+        views: false,
     }
 }
 
@@ -579,6 +582,171 @@ pub fn generate_deep(r: &mut Rng) -> Generated {
         injected: None,
         packed_classes: 0,
         pushed_words: 0,
+        views: false,
+    }
+}
+
+/// One packed word described by several *views*: the hidden truth is a word
+/// of 2..6 adjacent sized fields; the evidence is one complete, fine listing
+/// of the fields plus 1..3 further packed encodings over the same bits whose
+/// spans are single fields or runs of adjacent fields - a partition of a
+/// sub-range, or arbitrary runs that may overlap or coincide within one
+/// encoding. All of it is compatible, so the holder must resolve to the fine
+/// listing, a span over one field must end in that field's class, and a span
+/// over a run of fields must resolve to the packed encoding of exactly those
+/// fields (at offsets relative to the span) with the fields' classes as its
+/// components.
+pub fn generate_views(r: &mut Rng) -> Generated {
+    use WordUse::*;
+    let mut fields: Vec<(WordUse, usize)> = Vec::new();
+    let mut total = 0usize;
+    let wanted = 2 + r.usize_below(5);
+    while fields.len() < wanted {
+        let usage = *r.pick(&[Bytes, Numeric, UnsignedNumeric, SignedNumeric, UnsignedNumeric, Bool, Address, Selector]);
+        let width = usage.size().unwrap_or(8 * (1 + r.usize_below(10)));
+        if total + width > 256 {
+            if fields.len() >= 2 {
+                break;
+            }
+            continue;
+        }
+        fields.push((usage, width));
+        total += width;
+    }
+    let n = fields.len();
+    let mut offsets = Vec::new();
+    let mut at = 0usize;
+    for (_, w) in &fields {
+        offsets.push(at);
+        at += w;
+    }
+    let mut truths: Vec<Truth> = fields
+        .iter()
+        .map(|(u, w)| Truth::Word {
+            width: Some(*w),
+            usage: *u,
+        })
+        .collect();
+    let mut class_of: Vec<usize> = (0..n).collect();
+    let mut emitted: Vec<Vec<Ev>> = vec![Vec::new(); n];
+    let mut judgements: Vec<(usize, Ev)> = Vec::new();
+    for (i, (u, w)) in fields.iter().enumerate() {
+        let e = Ev::word(Some(*w), *u);
+        emitted[i].push(e.clone());
+        judgements.push((i, e));
+    }
+    // The holder class comes last; its variables are allocated now so that
+    // the views can be stated about any of them.
+    let n_holders = 1 + r.usize_below(3);
+    let holder_vars: Vec<usize> = (0..n_holders).map(|k| n + k).collect();
+    // (class index fixed up once the group classes are known)
+    for _ in 0..n_holders {
+        class_of.push(usize::MAX);
+    }
+    // A span over fields lo..hi: a variable of the field's class (tied to it
+    // by nothing but the merge) or a variable of a new class whose truth is
+    // the packed encoding of those fields.
+    let mut span_for = |r: &mut Rng, lo: usize, hi: usize, truths: &mut Vec<Truth>, class_of: &mut Vec<usize>, emitted: &mut Vec<Vec<Ev>>, judgements: &mut Vec<(usize, Ev)>| -> (usize, usize, usize) {
+        let size: usize = fields[lo..hi].iter().map(|f| f.1).sum();
+        let v = class_of.len();
+        if hi - lo == 1 {
+            class_of.push(lo);
+            if r.chance(1, 3) {
+                // a compatible weakening stated about this variable
+                let (u, w) = fields[lo];
+                let weaker = *r.pick(&below(u));
+                let e = Ev::word(if weaker.size().map_or(true, |s| s == w) { Some(w) } else { None }, weaker);
+                emitted[lo].push(e.clone());
+                judgements.push((v, e));
+            }
+        } else {
+            let rel: Vec<(usize, usize, usize)> = (lo..hi).map(|k| (k, offsets[k] - offsets[lo], fields[k].1)).collect();
+            truths.push(Truth::Packed { spans: rel.clone() });
+            emitted.push(vec![Ev::Packed {
+                spans:     rel,
+                is_struct: false,
+            }]);
+            class_of.push(truths.len() - 1 + 0);
+        }
+        (v, offsets[lo], size)
+    };
+    let mut views: Vec<Ev> = Vec::new();
+    // the fine listing
+    let mut fine: Vec<(usize, usize, usize)> = (0..n).map(|k| (k, offsets[k], fields[k].1)).collect();
+    if r.chance(1, 2) {
+        r.shuffle(&mut fine);
+    }
+    let any_struct = r.chance(1, 6);
+    views.push(Ev::Packed {
+        spans:     fine,
+        is_struct: any_struct && r.chance(1, 2),
+    });
+    let extra = 1 + r.usize_below(3);
+    let mut overlapping_views = 0usize;
+    for _ in 0..extra {
+        let mut spans: Vec<(usize, usize, usize)> = Vec::new();
+        if r.chance(1, 2) {
+            // a partition of a sub-range into runs
+            let lo = r.usize_below(n);
+            let hi = lo + 1 + r.usize_below(n - lo);
+            let mut at = lo;
+            while at < hi {
+                let end = at + 1 + r.usize_below(hi - at);
+                spans.push(span_for(r, at, end, &mut truths, &mut class_of, &mut emitted, &mut judgements));
+                at = end;
+            }
+        } else {
+            // 2..3 arbitrary runs: they may overlap or coincide
+            overlapping_views += 1;
+            for _ in 0..2 + r.usize_below(2) {
+                let lo = r.usize_below(n);
+                let hi = lo + 1 + r.usize_below(n - lo);
+                spans.push(span_for(r, lo, hi, &mut truths, &mut class_of, &mut emitted, &mut judgements));
+            }
+        }
+        if r.chance(1, 2) {
+            r.shuffle(&mut spans);
+        }
+        views.push(Ev::Packed {
+            spans,
+            is_struct: any_struct && r.chance(1, 2),
+        });
+    }
+    drop(span_for);
+    // Group classes were appended after the fields; the holder class is last.
+    let holder_class = truths.len();
+    truths.push(Truth::Packed {
+        spans: (0..n).map(|k| (k, offsets[k], fields[k].1)).collect(),
+    });
+    emitted.push(Vec::new());
+    for v in &holder_vars {
+        class_of[*v] = holder_class;
+    }
+    for i in 1..n_holders {
+        let j = r.usize_below(i);
+        judgements.push((holder_vars[i], Ev::Equal { other: holder_vars[j] }));
+    }
+    for view in views {
+        emitted[holder_class].push(view.clone());
+        judgements.push((*r.pick(&holder_vars), view));
+    }
+    r.shuffle(&mut judgements);
+    let packed_classes = truths.iter().filter(|t| matches!(t, Truth::Packed { .. })).count();
+    Generated {
+        ev: EvidenceSet {
+            n_vars: class_of.len(),
+            judgements,
+        },
+        model: Model {
+            class_of,
+            truths,
+            emitted,
+        },
+        target: None,
+        injected: None,
+        packed_classes,
+        pushed_words: overlapping_views,
+        views: true,
     }
 }
 
@@ -657,6 +825,44 @@ fn kind_sorted(e: &storage_layout_extractor::tc::expression::TypeExpression) -> 
     evidence::te_kind(e)
 }
 
+/// A packed encoding with every span whose variable itself resolved to a
+/// packed encoding replaced by that encoding's spans (shifted to the span's
+/// offset), recursively. Packed encodings that meet in stages describe a run
+/// of fields as a span whose own type lists the fields: the same information,
+/// one level down. Everything else is returned unchanged.
+fn flattened(o: &UnifyOutcome, e: &storage_layout_extractor::tc::expression::TypeExpression, depth: usize) -> storage_layout_extractor::tc::expression::TypeExpression {
+    use storage_layout_extractor::tc::expression::Span;
+    let TE::Packed { types, is_struct } = e else {
+        return e.clone();
+    };
+    let mut out: Vec<Span> = Vec::new();
+    for s in types {
+        let inner = if depth < 6 && evidence::tv_index(s.typ) < o.data.len() {
+            o.resolved(evidence::tv_index(s.typ)).ok()
+        } else {
+            None
+        };
+        match inner {
+            Some(inner @ TE::Packed { .. }) => {
+                let TE::Packed { types: sub, .. } = flattened(o, &inner, depth + 1) else {
+                    unreachable!()
+                };
+                if sub.is_empty() {
+                    out.push(s.clone());
+                }
+                for t in sub {
+                    out.push(Span::new(t.typ, s.offset + t.offset, t.size));
+                }
+            }
+            _ => out.push(s.clone()),
+        }
+    }
+    TE::Packed {
+        types:     out,
+        is_struct: *is_struct,
+    }
+}
+
 /// Compares the unifier's result with the model. Returns (signature, detail).
 pub fn compare(g: &Generated, o: &UnifyOutcome) -> Option<(String, Value)> {
     if let Some(p) = &o.panic {
@@ -710,6 +916,9 @@ pub fn compare(g: &Generated, o: &UnifyOutcome) -> Option<(String, Value)> {
                 Ok(r) => r,
                 Err(why) => return Some((format!("unresolved:{why}"), json!({"variable": v}))),
             };
+            // (only the views family states evidence that can come out one
+            // level down; everywhere else the resolved type is taken as is)
+            let resolved = if g.views { flattened(o, &resolved, 0) } else { resolved };
             let got = kind_sorted(&resolved);
             if got != expected {
                 let mut kinds: Vec<String> = model.emitted[c].iter().map(erase).collect();
@@ -857,7 +1066,20 @@ impl Check for C15Check {
         let mut r = Rng::new(seed);
         let contradictory = idx % 2 == 1;
         let deep = !contradictory && idx % 32 == 0;
-        let g = if deep { generate_deep(&mut r) } else { generate(&mut r, contradictory) };
+        let views = !contradictory && idx % 16 == 2;
+        let g = if deep {
+            generate_deep(&mut r)
+        } else if views {
+            generate_views(&mut r)
+        } else {
+            generate(&mut r, contradictory)
+        };
+        if views {
+            res.probe("packed_word_described_by_several_views");
+            if g.pushed_words > 0 {
+                res.probe("views_with_overlapping_or_coinciding_spans");
+            }
+        }
         if deep {
             res.probe("deeply_nested_type_described_twice");
         }
@@ -873,7 +1095,7 @@ impl Check for C15Check {
         if g.packed_classes > 0 {
             res.probe("sets_with_a_packed_class");
         }
-        if g.pushed_words > 0 {
+        if g.pushed_words > 0 && !views {
             res.probe("sets_with_a_word_pushed_onto_a_packed_field");
         }
         if g.injected.as_deref().map_or(false, |k| k.starts_with("FixedArray")) {
@@ -909,7 +1131,7 @@ impl Check for C15Check {
                     property:  "C15".into(),
                     signature: sig,
                     detail:    json!({"case": idx, "seed": seed, "contradictory": contradictory, "schedule": sched.label(), "explanation": detail, "judgements": g.ev.judgements.iter().map(|(v, e)| format!("v{v}: {}", e.kind())).collect::<Vec<_>>()}),
-                    replay:    json!({"check": "C15", "kind": "generated", "seed": seed, "contradictory": contradictory, "deep": deep, "sched": sched, "mode": mode}),
+                    replay:    json!({"check": "C15", "kind": "generated", "seed": seed, "contradictory": contradictory, "deep": deep, "views": views, "sched": sched, "mode": mode}),
                 });
                 break;
             }
@@ -926,7 +1148,13 @@ impl Check for C15Check {
         let contradictory = payload["contradictory"].as_bool().unwrap_or(false);
         let sched: Sched = serde_json::from_value(payload["sched"].clone()).map_err(|e| e.to_string())?;
         let mut r = Rng::new(seed);
-        let g = if payload["deep"].as_bool() == Some(true) { generate_deep(&mut r) } else { generate(&mut r, contradictory) };
+        let g = if payload["deep"].as_bool() == Some(true) {
+            generate_deep(&mut r)
+        } else if payload["views"].as_bool() == Some(true) {
+            generate_views(&mut r)
+        } else {
+            generate(&mut r, contradictory)
+        };
         let mode: Delivery = serde_json::from_value(payload["mode"].clone()).unwrap_or(Delivery::Plain);
         let o = run_unify(
             &g.ev,
